@@ -3,14 +3,21 @@ import Mp4ff.Driver.Util
 namespace Mp4ff.Driver.C01
 open Mp4ff Mp4ff.Boxes Mp4ff.Driver
 
-def dispatch (op : String) (args : List String) : Option String :=
-  match op, args with
-  | "box.rt", [h] => (fromHex h).map fun bs =>
+def rt (h : String) : Option String :=
+  (fromHex h).map fun bs =>
       match roundTrip bs with
       | .unmodelled => "unmodelled"
       | .rejected => "rej"
       | .encFails => "encfail"
       | .ok size enc _ => s!"size={size} enc={toHex enc}"
+
+def dispatch (op : String) (args : List String) : Option String :=
+  match op, args with
+  | "box.rt", [h] => rt h
+  -- C03: the same model function answers for every decoder x encoder combination of the Go code
+  | "box.rt@rd-sw", [h] => rt h
+  | "box.rt@sr-wr", [h] => rt h
+  | "box.rt@sr-sw", [h] => rt h
   | "box.dc", [h] => (fromHex h).map fun bs =>
       match roundTrip bs with
       | .ok _ _ dc => showNats dc
